@@ -12,7 +12,7 @@ import (
 func init() {
 	register(&Prop{
 		ID:          "C01",
-		Explanation: "Decides the control-flow skeleton of 'served only if credential or bypass': every protected sink (load of the upstream handler, the 202 writer of the auth-only endpoint, every success write of the user-info endpoint) is reached only on paths where getAuthenticatedSession returned a nil error; every nil-error return of getAuthenticatedSession has the bypass predicate true or (session non-nil, e-mail empty or validated, Authorize true); IsAllowedRequest is true only through preflight&&OPTIONS, isAllowedRoute or isTrustedIP and is called only from getAuthenticatedSession; RequestScope.Session is written only by the three session loaders and only with result #0 of their verified getter; each getter returns non-nil only after its verification call succeeded; cookie-store Load and ticket decoding succeed only behind encryption.Validate ok, which needs checkSignature true, which needs hmac.Equal; the route table wraps every session-consuming handler in sessionChain.",
+		Explanation: "Decides the control-flow skeleton of 'served only if credential or bypass': every protected sink (load of the upstream handler, the 202 writer of the auth-only endpoint, every success write of the user-info endpoint) is reached only on paths where getAuthenticatedSession returned a nil error; every nil-error return of getAuthenticatedSession has the bypass predicate true or (session non-nil, e-mail empty or validated, Authorize true); IsAllowedRequest is true only through preflight&&OPTIONS, isAllowedRoute or isTrustedIP and is called only from getAuthenticatedSession; RequestScope.Session is written only by the three session loaders and only with result #0 of their verified getter; each getter returns non-nil only after its verification call succeeded; cookie-store Load and ticket decoding succeed only behind encryption.Validate ok, which needs checkSignature true, which needs hmac.Equal; the route table wraps every session-consuming handler in sessionChain. Added during the build: the skip-auth decision consumes only the guarded, query-free request path (R9, shared with C15.R1); the trusted-IP set inserts into the same-mask map it looks up and the htpasswd validator answers true only by comparing against the entry it read (R10, shared with C15.R5 / C20.R2).",
 		NotDecided:  "that a valid credential always verifies (values), correctness of HMAC/AES (trusted), string semantics of validators.",
 		Run:         runC01,
 	})
@@ -62,6 +62,7 @@ func runC01(c *Ctx) {
 	r.Rule("R5-session-writers", "RequestScope.Session is stored only by the three loaders, with result #0 of a verified getter", 3)
 	r.Rule("R6-getters-verified", "session getters return non-nil only after their verification succeeded", 4)
 	r.Rule("R7-store-validation", "cookie Load / ticket decode succeed only with Validate ok; Validate ok needs checkSignature; checkSignature needs checkHmac; checkHmac needs hmac.Equal", 5)
+	r.Rule("R10-trusted-ip-set", "the trusted-IP set inserts into the same-mask map it looks up (shared with C15.R5); the htpasswd validator answers true only by comparing against the entry it read (shared with C20.R2)", 8)
 	r.Rule("R9-bypass-input", "the skip-auth decision consumes only the guarded, query-free request path (shared with C15.R1)", 1)
 	r.Rule("R8-route-table", "every route whose handler consumes the session is registered through sessionChain; preAuthChain is installed on the root router", 9)
 
@@ -202,6 +203,8 @@ func runC01(c *Ctx) {
 	}
 
 	checkBypassOperand(c, "R9-bypass-input")
+	runNetSetRule(c, "R10-trusted-ip-set")
+	checkHtpasswdValidate(c, "R10-trusted-ip-set")
 
 	// ---- R4: IsAllowedRequest -----------------------------------------------------------------------
 	runC01R4(c, "R4-bypass-entry", isAllowed, gas)
